@@ -99,7 +99,15 @@ def direct_checks(res, harness, tier, rng):
     groups = []
     for g in range(ngroups):
         nt = rng.choice([2, 2, 3, 4, 8, 16])
-        groups.append([thread_scenario(rng, "g%dt%d" % (g, i), i, ("%s/g%d" % (tmp, g)).encode()) for i in range(nt)])
+        grp = [thread_scenario(rng, "g%dt%d" % (g, i), i, ("%s/g%d" % (tmp, g)).encode()) for i in range(nt)]
+        if rng.random() < 0.35:
+            # documented process-wide options set once before the threads start (all files here are regular files of the
+            # user the check runs as, so every read still succeeds as in a run alone)
+            pro = Scenario("prologue_g%d" % g, {"prologue": True})
+            for c in rng.sample([("G", "nosymlink", 1), ("G", "owner", os.getuid()), ("G", "group", os.getgid())], rng.randint(1, 3)):
+                pro.add(*c)
+            grp.insert(0, pro)
+        groups.append(grp)
     supp = os.path.join(build.BUILD, "tsan.supp")
     with open(supp, "w") as f:
         for a in ALLOWED:
@@ -138,6 +146,11 @@ def direct_checks(res, harness, tier, rng):
                 res.nontrivial.add(tuple(s.lines))
             if len(res.samples) < 2:
                 res.samples.append({"threads_in_group": len(grp), "scenario": s.lines[:10], "output": il[:10]})
+            if "badclose" in il and len(res.violations) < 3:
+                p = common.write_replay(res, "fd%d" % (len(res.violations) + 1), s,
+                                        "the library closed a file descriptor that was not open (closed twice or never opened): with other "
+                                        "threads running this closes a file another thread has just opened", il, ml)
+                res.violations.append((p, "close of a descriptor the library does not own", False))
             if il != ml or ist != "ok":
                 res.disagreements += 1
                 if len(res.violations) < 3:
